@@ -202,8 +202,15 @@ public:
 
     GaloisFieldDict &operator+=(const integer_class &other)
     {
-        if (dict_.empty() or other == integer_class(0))
+        if (other == integer_class(0))
             return down_cast<GaloisFieldDict &>(*this);
+        if (dict_.empty()) {
+            integer_class c;
+            mp_fdiv_r(c, other, modulo_);
+            if (c != integer_class(0))
+                dict_.push_back(c);
+            return down_cast<GaloisFieldDict &>(*this);
+        }
         integer_class temp = dict_[0] + other;
         mp_fdiv_r(temp, temp, modulo_);
         dict_[0] = temp;
